@@ -88,6 +88,7 @@ type nfSlot struct {
 	order      []string                      // … in the order they were acknowledged
 	holdCancel   string                   // the next notifications/cancelled this client writes is held, under this listen name
 	cancelParked map[string]chan struct{} // listens whose cancellation is held in the client's transport (or, unsubMode, whose clean-up is parked in the server's UnsubscribeHandler) -> release channel
+	raw          *nfHoldConn              // the client's end of the connection (`close c<i> drop` cuts it)
 	parkUnsub    string                   // the next UnsubscribeHandler call the server makes for this session parks, under this listen name
 	unsubMode    map[string]bool          // entries of cancelParked that are parked in the UnsubscribeHandler: released by `unsubdone`
 }
@@ -106,7 +107,11 @@ func (t *nfHoldTransport) Connect(ctx context.Context) (Connection, error) {
 	if err != nil {
 		return nil, err
 	}
-	return &nfHoldConn{Connection: c, w: t.w, sl: t.sl}, nil
+	hc := &nfHoldConn{Connection: c, w: t.w, sl: t.sl}
+	t.w.mu.Lock()
+	t.sl.raw = hc
+	t.w.mu.Unlock()
+	return hc, nil
 }
 
 type nfHoldConn struct {
@@ -1333,6 +1338,40 @@ func (w *nfWorld) apply(toks []string) (obs string) {
 		if !ok || sl == nil || !sl.connected || len(sl.held) > 0 || len(sl.ackParked) > 0 || len(sl.cancelParked) > 0 {
 			return "refused"
 		}
+		if len(toks) == 3 && toks[2] == "drop" {
+			// the connection is cut under the client: no notifications/cancelled for its open listens, no
+			// orderly ClientSession.Close; the server reads EOF, the handlers of the open
+			// subscriptions/listen streams are cancelled by the connection, their clean-up runs, then
+			// Server.disconnect
+			w.mu.Lock()
+			raw := sl.raw
+			w.mu.Unlock()
+			if raw == nil {
+				return "refused"
+			}
+			raw.Connection.Close()
+			synctest.Wait()
+			// the server session must end by itself; if it does not (a parked handler that nothing cancels
+			// keeps the connection from becoming idle) the harness reports it instead of deadlocking
+			ended := make(chan struct{})
+			go func() { sl.ss.Wait(); close(ended) }()
+			obs := "ok"
+			select {
+			case <-ended:
+			case <-time.After(time.Hour):
+				obs = "hung"
+			}
+			for _, cancel := range sl.xl {
+				cancel()
+			}
+			sl.cs.Close()
+			synctest.Wait()
+			w.closed[sl.ss] = sl.sid
+			w.slots[sl.idx] = nil
+			return w.withStray(obs)
+		} else if len(toks) != 2 {
+			return "bad-op"
+		}
 		// the raw listens are outstanding calls of the connection: like ClientSession.Close does for the
 		// listens it opened itself, cancel them first (jsonrpc2's Close waits for outstanding calls)
 		for _, cancel := range sl.xl {
@@ -1746,6 +1785,14 @@ func nfTag(toks []string, obs string) string {
 		if strings.HasSuffix(obs, "cancel-held") {
 			return toks[0] + "-cancel-held"
 		}
+		if strings.HasSuffix(obs, "unsub-held") {
+			return toks[0] + "-unsub-held"
+		}
+		return toks[0]
+	case "close":
+		if len(toks) == 3 {
+			return "close-" + toks[2]
+		}
 		return toks[0]
 	case "advance":
 		if strings.HasPrefix(obs, "fired ") {
@@ -2152,7 +2199,7 @@ func (g *nfGen) body(w *nfWorld) string {
 					if g.rng.Intn(2) == 0 {
 						g.tail = append(g.tail, "tables")
 					}
-					return fmt.Sprintf("close c%d", i)
+					return fmt.Sprintf("close c%d%s", i, g.pick("", "", " drop"))
 				}
 			case r2 < 36 && len(free) > 0:
 				g.nextSid++
@@ -2172,7 +2219,7 @@ func (g *nfGen) body(w *nfWorld) string {
 		case r < 80 && len(conn) > 0:
 			i := conn[g.rng.Intn(len(conn))]
 			if len(w.slots[i].held) == 0 && len(w.slots[i].ackParked) == 0 && len(w.slots[i].cancelParked) == 0 {
-				return fmt.Sprintf("close c%d", i)
+				return fmt.Sprintf("close c%d%s", i, g.pick("", "", " drop"))
 			}
 		case r < 84 && len(conn) > 0:
 			return fmt.Sprintf("list c%d %s n", conn[g.rng.Intn(len(conn))], map[string]string{"tools": "tools", "prompts": "prompts", "resources": "resources"}[k])
@@ -2372,7 +2419,7 @@ func (g *nfGen) body(w *nfWorld) string {
 				continue
 			}
 			g.tail = append(g.tail, "tables")
-			return fmt.Sprintf("close c%d", i)
+			return fmt.Sprintf("close c%d%s", i, g.pick("", "", " drop"))
 		case r < 58:
 			if len(conn) == 0 {
 				continue
@@ -2457,7 +2504,7 @@ func (g *nfGen) body(w *nfWorld) string {
 	return changeOp()
 }
 
-const nfScriptedShapes = 30
+const nfScriptedShapes = 31
 
 // nfScripted: the shapes the property is about, placed at random offsets (so that quick runs always reach them).
 func nfScripted(rng *rand.Rand, hook string, variant int) []string {
@@ -2621,6 +2668,13 @@ func nfScripted(rng *rand.Rand, hook string, variant int) []string {
 			ops = append(ops, "cbrun tools")
 		}
 		ops = append(ops, "rupdated u0", "xend c0 L1", "rupdated u0", "tables", "subscribe c0 u0", "unsubdone c0 r0", "rupdated u0", "tables")
+	case 30: // the connection is cut under a client with open streams (no cancellations, no orderly Close): everything of the session goes; a second session keeps its own
+		ops = append(ops, "connect c0 1 modern tr", "listen c0", "subscribe c0 u0", "xlisten c0 L1 p u0 u1", "connect c1 2 modern t", "listen c1", "subscribe c1 u0", "connect c2 3 legacy -", "subscribe c2 u1",
+			"tables", "close c0 drop", "tables", "rupdated u0", "rupdated u1", "change tools add", fmt.Sprintf("advance %d", d))
+		if hook == "hook1" {
+			ops = append(ops, "cbrun tools")
+		}
+		ops = append(ops, "close c2 drop", "tables", "rupdated u1", "close c1 drop", "tables")
 	case 5: // capability inferred at listen time: nothing to list yet
 		ops = append(ops, "connect c0 1 modern tpr", "listen c0", "tables", "change prompts add", fmt.Sprintf("advance %d", d+1))
 		if hook == "hook1" {
